@@ -6,7 +6,7 @@ from .. import driver, explore, inject, rungrid, vk as vkmod
 ID = "C16"
 LEVEL = "fault_enumeration"
 RULE = ("scenarios {1 command; 1 experiment; chain of 2; 2 parallel + dependent with -j2; experiment + combine; experiment group -j2 "
-        "(thorough: + all n<=3 shapes)} x every deviation-0 schedule (completion order) x ConductorAbort raised at every line event of "
+        "(thorough: + all n<=3 shapes)} x every deviation-0 schedule (completion order; deviation-1 schedules - early exits, batched exits - for single-task scenarios) x ConductorAbort raised at every line event of "
         "Conductor code from the return of register_signal_handlers() to process exit - exactly how an exception raised by the "
         "SIGINT/SIGTERM handler surfaces in the interrupted frame; oracle per injected run: exit != 0 with the abort message and no "
         "internal error; every virtual process that was running at the injection point has its process group in a killpg(SIGTERM) "
@@ -46,14 +46,17 @@ def scenarios(tier):
 def items(tier):
     out = []
     for i, c in enumerate(scenarios(tier)):
+        # deviation-1 schedules (a task that exits before Conductor has registered it, exits delivered in a batch) for the
+        # small scenarios; deviation 0 (all completion orders) for the others
+        bound = 1 if (len(c["g"]) == 1 or (tier == "thorough" and len(c["g"]) <= 2)) else 0
         for ch in range(NCHUNKS):
-            out.append({"case": c, "chunk": ch, "scn_index": i})
+            out.append({"case": c, "chunk": ch, "scn_index": i, "bound": bound})
     return out
 
 
-def schedules(scn):
+def schedules(scn, bound=0):
     found = []
-    explore.explore(scn, 0, lambda obs: found.append(list(obs.choices)))
+    explore.explore(scn, bound, lambda obs: found.append(list(obs.choices)))
     return found
 
 
@@ -103,7 +106,7 @@ def run_item(item, tier):
     res = {"evals": 0, "sigs": set(), "violations": [], "counters": {}, "sample": None}
     found = {}
     scn = rungrid.make_scenario(item["case"])
-    for choices in schedules(scn):
+    for choices in schedules(scn, item.get("bound", 0)):
         counter = inject.AbortInjector(None)
         explore.execute(scn, choices, tracer=counter)
         n1 = counter.count
